@@ -97,6 +97,9 @@ def plan_shapes():
         shapes.append({"chunks": chunks, "result_at": None, "fail_at": k, "extra": []})
         shapes.append({"chunks": chunks, "result_at": 0, "fail_at": k, "extra": []})
     shapes.append({"chunks": chunks, "result_at": 1, "fail_at": 3, "extra": [["job.log", "text", "some log\n"]]})
+    # the stream dies of something that is not a DockerException: the user interrupts, the daemon connection drops
+    shapes.append({"chunks": chunks, "result_at": 0, "fail_at": 2, "fail_kind": "keyboard", "extra": []})
+    shapes.append({"chunks": chunks, "result_at": None, "fail_at": 1, "fail_kind": "oserror", "extra": []})
     big = [BIG, BIG, CHUNK_POOL[0], BIG, BIG]
     shapes.append({"chunks": big, "result_at": 1, "fail_at": None, "extra": []})
     shapes.append({"chunks": big, "result_at": 1, "fail_at": 5, "extra": []})
@@ -181,6 +184,7 @@ def make_case(prop, tier, seed, i):
         r = rng.random()
         if r < p_fail:
             pl["fail_at"] = rng.randrange(0, nch + 1)
+            pl["fail_kind"] = weighted(rng, [("docker", 6), ("keyboard", 1), ("oserror", 1)])
             if rng.random() < 0.5:
                 pl["result_at"] = None
         elif r < p_fail + 0.1:
@@ -410,6 +414,13 @@ def _child(case):
                 if pl["result_at"] is not None and pl["result_at"] == k:
                     write_result()
                 if pl["fail_at"] is not None and pl["fail_at"] == k:
+                    kind = pl.get("fail_kind", "docker")
+                    if kind == "keyboard":
+                        bump("fault:keyboard_interrupt_at_chunk")
+                        raise KeyboardInterrupt()
+                    if kind == "oserror":
+                        bump("fault:docker_client_oserror_at_chunk")
+                        raise ConnectionResetError(104, "connection to the docker daemon lost")
                     bump("fault:docker_exception_at_chunk")
                     raise DockerException(["docker", "run", image], 1)
                 if k < n:
@@ -715,13 +726,13 @@ def judge(rec, viols, bump, states, nontrivial, start_state, real_open):
     if "runner.sh" not in (rec.get("scripts_listing") or []):
         V("docker-call", "the mounted package has no entry script")
     # ---- outcome
+    binary_noise = any(t.startswith("\\xff\\xfe") for _, t in plan_["chunks"]) and not op.get("chained")
     if op.get("chained"):
         failed = rec["chained"]["rc"] != 0
         has_result = not failed
     else:
         failed = plan_["fail_at"] is not None
         has_result = plan_["result_at"] is not None and (plan_["fail_at"] is None or plan_["result_at"] <= plan_["fail_at"])
-    binary_noise = any(t.startswith("\\xff\\xfe") for _, t in plan_["chunks"]) and not op.get("chained")
     binary_left = any(k == "binary" for _, k, _ in plan_["extra"]) and not op.get("chained")
     new_files = sorted(set(rec["outdir_after"] or []) - set(rec["outdir_before"] or [])) if rec["outdir_after"] is not None else []
     new_files = [f for f in new_files if not f.startswith("tmpdir-")]
@@ -729,6 +740,10 @@ def judge(rec, viols, bump, states, nontrivial, start_state, real_open):
         bump("reach:container_failed")
         if rec["execute"] == "ok":
             V("failure-propagates", f"the container failed but the execution returned {rec.get('returned')}")
+        elif plan_.get("fail_kind", "docker") != "docker" and not op.get("chained"):
+            want = "KeyboardInterrupt" if plan_["fail_kind"] == "keyboard" else "ConnectionResetError"
+            if rec["execute"] != want and not (binary_noise and rec["execute"] == "UnicodeDecodeError"):
+                V("failure-propagates", f"the stream died of {want} but the caller got {rec['execute']} ({rec.get('execute_msg')})")
         elif not rec.get("docker_exc_in_chain"):
             V("failure-propagates", f"the container failed but the caller got {rec['execute']} ({rec.get('execute_msg')}) "
                                     f"without the DockerException in its chain")
@@ -816,7 +831,7 @@ def shrink(case, fails):
         pl = op["plan"]
         for cand in ({"chunks": [], "result_at": 0 if pl["result_at"] is not None else None,
                       "fail_at": 0 if pl["fail_at"] is not None else None, "extra": []},
-                     dict(pl, extra=[]), dict(pl, chunks=pl["chunks"][:1], result_at=None if pl["result_at"] is None else 0,
+                     dict(pl, extra=[]), dict(pl, fail_kind="docker"), dict(pl, chunks=pl["chunks"][:1], result_at=None if pl["result_at"] is None else 0,
                                               fail_at=None if pl["fail_at"] is None else min(pl["fail_at"], 1))):
             c2 = copy.deepcopy(c)
             c2["groups"][i][0]["plan"] = cand
